@@ -45,7 +45,7 @@ class C06(BaseCheck):
   REQUIRED_CLASSES = ('phase:in-band', 'phase:pinned-max', 'phase:pinned-min', 'phase:pinned-members',
                       'expansion', 'contraction', 'jitter-round', 'member-down', 'leave-active',
                       'leave-during-jitter-round', 'close-raises-in-jitter-round',
-                      'second-balancer-connecting', 'wall-clock-steps-back', 'yielding-log-handler', 'leave-at-jitter-start', 'phase:trickle', 'requests-outlive-mark-down')
+                      'second-balancer-connecting', 'wall-clock-steps-back', 'yielding-log-handler', 'leave-at-jitter-start', 'phase:trickle', 'requests-outlive-mark-down', 'duplicates-in-initial-list')
   ASSUMPTIONS = ('smoothed load = harness reference EMA with the balancer\'s documented 5 s window and the '
                  'same sampling points, on the documented clock (wall time while it moves forward; standing still while a stepped-back wall clock is behind an earlier reading) (cross-checked against the published load_average gauge); phases whose '
                  'per-member load is within 1e-6 of a band edge for a relevant size are skipped and counted',
@@ -121,7 +121,12 @@ class C06(BaseCheck):
       if act_:
         other.ss.leave(act_[0])        # its replacement starts connecting and never finishes
         env.advance(0.3)
-    w = make_world(env, rng, 'aperture', params, open_delay)
+    # in some cases the listing the balancer opens with names a member more than once (a repeated address in
+    # the URI, a stale registration next to a fresh one)
+    dups_ = rng.choice([1, 2]) if idx % 9 == 4 else 0
+    if dups_:
+      classes.add('duplicates-in-initial-list')
+    w = make_world(env, rng, 'aperture', params, open_delay, get_servers_dups=dups_)
     lb, ss = w.lb, w.ss
     # invariant at a hook: a request event at which the smoothed load per active member (the
     # balancer's own average, the size the event found) is at or above max_load, with idle members
